@@ -188,6 +188,12 @@ func decodeFixedSizeTypes(t ttype, b []byte, p unsafe.Pointer) int {
 	}
 }
 
+// isBinary reports whether t is stored as []byte: binary, or a pointer to it
+// (a pointer type carries T_pointer in Tag, its element type is t.V).
+func isBinary(t *tType) bool {
+	return t.Tag == defs.T_binary || (t.IsPointer && t.V.Tag == defs.T_binary)
+}
+
 // minWireSize is the minimum number of bytes a value of a given wire type takes
 // in Thrift binary encoding. It is used while decoding to reject corrupted
 // container/string lengths that can not possibly fit in the remaining buffer,
@@ -217,7 +223,7 @@ func decodeStringNoCopy(t *tType, b []byte, p unsafe.Pointer) (i int, err error)
 	}
 	i += 4
 	if l == 0 {
-		if t.Tag == defs.T_binary {
+		if isBinary(t) {
 			*(*[]byte)(p) = []byte{}
 		} else {
 			*(*string)(p) = ""
@@ -229,7 +235,7 @@ func decodeStringNoCopy(t *tType, b []byte, p unsafe.Pointer) (i int, err error)
 		return i, newSizeExceedsBufferException(l, len(b)-i)
 	}
 
-	if t.Tag == defs.T_binary {
+	if isBinary(t) {
 		*(*[]byte)(p) = unsafe.Slice(&b[i], l)
 	} else {
 		*(*string)(p) = unsafe.String(&b[i], l)
@@ -259,7 +265,7 @@ func (d *tDecoder) decodeType(t *tType, b []byte, p unsafe.Pointer, maxdepth int
 		}
 		i := 4
 		if l == 0 {
-			if t.Tag == defs.T_binary {
+			if isBinary(t) {
 				*(*[]byte)(p) = []byte{}
 			} else {
 				*(*string)(p) = ""
@@ -272,7 +278,7 @@ func (d *tDecoder) decodeType(t *tType, b []byte, p unsafe.Pointer, maxdepth int
 		}
 
 		x := d.Malloc(l, 1, 0)
-		if t.Tag == defs.T_binary {
+		if isBinary(t) {
 			*(*[]byte)(p) = unsafe.Slice((*byte)(x), l)
 		} else {
 			*(*string)(p) = unsafe.String((*byte)(x), l)
